@@ -13,6 +13,8 @@ inductive ConnPhase
   | reading       -- a request is being read
   | inHandler
   | writing       -- the handler returned, the response is being written
+  | buffered      -- the response sits in the write buffer and a further pipelined request was already read: the loop goes
+                  -- on at once; NO idle stamp (server.go sets it only when `br == nil || br.Buffered() == 0`, Gen fact)
   | done          -- serveConn returned (connection closed or hijacked away)
   deriving DecidableEq, Repr
 
@@ -34,6 +36,9 @@ inductive SDEvent
   | headerDone (i : Nat)         -- reading → inHandler
   | handlerReturn (i : Nat)      -- inHandler → writing
   | responseWritten (i : Nat)    -- writing → idle, or → done when stop is set / close requested
+  | responseBuffered (i : Nat)   -- writing → buffered (not flushed: more requests are already buffered)
+  | bufferedNext (i : Nat)       -- buffered → done when stop is set (flush, then the loop ends), else → reading (the
+                                 -- buffered response leaves with the next flush)
   | connError (i : Nat)          -- reading → done (EOF, timeout, parse error)
   | shutdownBegin                -- stop := 1, listeners closed, Done closed
   | closeIdleTick                -- closeIdleConns: every idle connection is closed and its loop ends
@@ -58,6 +63,13 @@ def sdStep (s : SDState) : SDEvent → Option SDState
     if s.conns[i]? = some .writing then
       if s.stop then some { s with conns := setPhase s.conns i .done, open_ := s.open_ - 1, answered := s.answered + 1 }
       else some { s with conns := setPhase s.conns i .idle, answered := s.answered + 1 }
+    else none
+  | .responseBuffered i =>
+    if s.conns[i]? = some .writing then some { s with conns := setPhase s.conns i .buffered } else none
+  | .bufferedNext i =>
+    if s.conns[i]? = some .buffered then
+      if s.stop then some { s with conns := setPhase s.conns i .done, open_ := s.open_ - 1, answered := s.answered + 1 }
+      else some { s with conns := setPhase s.conns i .reading, answered := s.answered + 1 }
     else none
   | .connError i =>
     if s.conns[i]? = some .reading then some { s with conns := setPhase s.conns i .done, open_ := s.open_ - 1 } else none
